@@ -2,6 +2,7 @@ import SV.Wire
 import SV.Spec.C06
 import SV.Spec.C06Style
 import SV.Model.C06Headers
+import SV.Spec.C06Session
 open SV SV.Wire SV.Model.C06 SV.Spec.C06
 
 def asBytes (j : Json) : Except String Bytes := asList asNat j
@@ -115,6 +116,47 @@ def decPair (j : Json) : Except String (Str × Str) :=
   | .arr [k, v] => do return (← asText k, ← asText v)
   | _ => .error "pair"
 
+
+def decDict (j : Json) : Except String Dict := asPairs asText asText j
+def encDict (d : Dict) : Json := .arr (d.map fun (k, v) => .arr [jtext k, jtext v])
+def decCaseS (j : Json) : Except String CaseS := do
+  return ⟨← asOpt decDict (optField j "query"), ← asOpt decDict (optField j "cookies")⟩
+def encCaseS (c : CaseS) : Json := jobj [("query", jopt encDict c.query), ("cookies", jopt encDict c.cookies)]
+def decSetCookie (j : Json) : Except String SetCookie :=
+  match j with
+  | .arr [k, v] => do return (← asText k, ← asOpt asText v)
+  | _ => .error "set-cookie"
+def decCall (j : Json) : Except String (Nat × Call) := do
+  return (← asNat (← field j "ix"),
+    ⟨← asOpt decDict (optField j "params"), ← asOpt decDict (optField j "cookies"), ← asBool (← field j "explicit"),
+     ← asList decSetCookie (← field j "setCookies")⟩)
+def decVia (j : Json) : Except String Via := do
+  match ← asStr j with
+  | "wsgi" => return .wsgi | "requests" => return .requests | "asgi" => return .asgi
+  | s => .error s!"via {s}"
+def decPolicy (j : Json) : Except String ClientPolicy := do
+  match ← asStr j with
+  | "perCall" => return .perCall | "perApp" => return .perApp
+  | s => .error s!"policy {s}"
+def encSent (s : Sent) : Json := jobj [("query", encDict s.query), ("cookies", encDict s.cookies)]
+def decSent (j : Json) : Except String Sent := do
+  return ⟨← decDict (← field j "query"), ← decDict (← field j "cookies")⟩
+
+/-- the specification's verdicts on a history of observed requests; `store` is the cases as generated -/
+def judgeTrace (store : List CaseS) : Dict → List (Nat × Call) → List (Sent × Sent) → List Json
+  | _, [], _ => []
+  | _, _, [] => []
+  | jar, (ix, a) :: calls, (w, r) :: obs =>
+    match store[ix]? with
+    | none => .null :: judgeTrace store jar calls obs
+    | some c =>
+      let uj := if a.explicit then some jar else none
+      jobj [("cookiesOk", .bool (cookiesOk c a uj w.cookies)), ("queryOk", .bool (queryOk c a w.query)),
+            ("recordedOk", .bool (recordedOk c a ⟨w, r⟩)),
+            ("ownCookies", encDict (ownCookies c a)), ("ownQuery", encDict (ownQuery c a)),
+            ("userJar", jopt encDict uj)]
+        :: judgeTrace store (specUserJar jar a) calls obs
+
 def shapeName : Shape → String
   | .plain => "plain" | .list d => s!"list:{d}" | .pairs => "pairs" | .kvs d => s!"kvs:{d}"
   | .labelPlain => "labelPlain" | .labelList d => s!"labelList:{d}" | .labelPairs => "labelPairs" | .labelKvs => "labelKvs"
@@ -213,6 +255,21 @@ def handle : Handler := fun op a => do
   | "utf8_decode" => return jopt jtext (utf8Decode (← asBytes (← field a "bs")))
   | "empty_dicts" =>
     return encContainer (emptyDictsToStrings (← decContainer (← field a "container")))
+  | "session_trace" =>
+    let via ← decVia (← field a "via"); let pol ← decPolicy (← field a "pol")
+    let vm ← decVariant (← field a "vm"); let vp ← decVariant (← field a "vp")
+    let store ← asList decCaseS (← field a "store")
+    let calls ← asList decCall (← field a "calls")
+    let jar ← decDict (← field a "userJar")
+    let es := runTrace via pol vm vp ⟨[], jar⟩ store calls
+    return .arr (es.map fun e => jobj [("ix", jnat e.ix), ("wire", encSent e.out.wire), ("recorded", encSent e.out.recorded),
+                                        ("caseAfter", encCaseS e.caseAfter)])
+  | "session_judge" =>
+    let store ← asList decCaseS (← field a "store")
+    let calls ← asList decCall (← field a "calls")
+    let jar ← decDict (← field a "userJar")
+    let obs ← asList (fun j => do return (← decSent (← field j "wire"), ← decSent (← field j "recorded"))) (← field a "observed")
+    return .arr (judgeTrace store jar calls obs)
   | _ => .error s!"unknown op {op}"
 
 def main : IO Unit := run handle
